@@ -29,6 +29,8 @@ func C12(p *core.Program, r *core.Report) {
 	r.Assumptions = append(r.Assumptions, "bufio.Writer.Flush and net.Conn.Write report a broken connection as an error (operating system / library behaviour)")
 
 	checkMTCP(p, r)
+	r.Analysed["error_returning_functions_checked"] = checkErrorsNotSwallowedIn(p, r, mtcpPkg, bbcPkg)
+	checkLoopVarCapture(p, r)
 	checkBBC(p, r)
 }
 
